@@ -8,12 +8,12 @@
 //
 // One case = one initial placement ("root") of one instance.  From a state with `remaining` moves left:
 //   mark
-//   for every ordered pair (a, b) of cell indices (ignored cells and a == b included):
-//     canSwap a b                               real answer 0 | 1 | throw:runtime_error
-//     if 1:  posSwap a b, swap a b, state, [check, inv], <oracle>, <recurse with remaining - 1>, reset
+//   canSwapAll      the real canSwap answer 0 | 1 | T(hrow) for every ordered pair (a, b) of cell indices (ignored
+//                   cells and a == b included), one character each, in one line
+//   canInsertAll    likewise canInsert for every cell c, every row r of the data structure, every pred in {-1} + cells of r
+//   for every pair answering 1:  posSwap a b, swap a b, state, [check, inv], <oracle>, <recurse with remaining - 1>, reset
 //     the first pair answering 0: swap a b (must throw runtime_error; the real state must be unchanged)
-//   for every cell c, every row r of the data structure, every pred in {-1} + cells of r:
-//     canInsert c r pred                        likewise, with posInsert / insert
+//   for every (c, r, pred) answering 1: likewise, with posInsert / insert
 //   drop
 // [check, inv] are asked of the model the first time a move produces that state line in the instance (they are
 // functions of the state; the real check() runs after every move inside the oracle).
@@ -456,12 +456,36 @@ struct Search {
     int n = p.nbCells(), R = p.nbRows();
     out.O("mark");
     bool triedBadSwap = false, triedBadInsert = false;
+    // every canSwap / canInsert answer of the node, compared in two lines (one character per query, in the order of
+    // the loops below); the moves follow
+    auto canChar = [](const std::string &can) { return can == "1" ? '1' : can == "0" ? '0' : 'T'; };
+    {
+      std::string all;
+      for (int a = 0; a < n; ++a)
+        for (int b = 0; b < n; ++b) {
+          std::string can;
+          try { can = p.canSwap(a, b) ? "1" : "0"; } catch (const std::exception &e) { can = vc::exClass(e); }
+          all += canChar(can);
+        }
+      out.OI("canSwapAll", "canSwapAll " + all);
+      all.clear();
+      for (int c = 0; c < n; ++c)
+        for (int r = 0; r < R; ++r) {
+          std::vector<int> preds = {-1};
+          for (int k : p.rowCells(r)) preds.push_back(k);
+          for (int pred : preds) {
+            std::string can;
+            try { can = p.canInsert(c, r, pred) ? "1" : "0"; } catch (const std::exception &e) { can = vc::exClass(e); }
+            all += canChar(can);
+          }
+        }
+      out.OI("canInsertAll", "canInsertAll " + all);
+    }
     for (int a = 0; a < n; ++a)
       for (int b = 0; b < n; ++b) {
         std::string sa = std::to_string(a) + " " + std::to_string(b);
         std::string can;
         try { can = p.canSwap(a, b) ? "1" : "0"; } catch (const std::exception &e) { can = vc::exClass(e); }
-        out.OI("canSwap " + sa, "canSwap " + can);
         out.count("x_canSwap_" + can);
         if (can == "1") {
           auto pos = p.positionsOnSwap(a, b);
@@ -508,7 +532,6 @@ struct Search {
           std::string sa = std::to_string(c) + " " + std::to_string(r) + " " + std::to_string(pred);
           std::string can;
           try { can = p.canInsert(c, r, pred) ? "1" : "0"; } catch (const std::exception &e) { can = vc::exClass(e); }
-          out.OI("canInsert " + sa, "canInsert " + can);
           out.count("x_canInsert_" + can);
           if (can == "1") {
             Point pt = p.positionOnInsert(c, r, pred);
